@@ -24,7 +24,7 @@ ENT_ATTRS = {'P': P_ATTRS, 'K': K_ATTRS, 'T': T_ATTRS}
 VOLATILE = {('P', 'v')}
 COLLS = [('P', 'kids', 'K'), ('P', 'tags', 'T'), ('T', 'ps', 'P')]
 O2M = {('P', 'kids')}
-PKS = {'P': [1, 2], 'K': [1, 2, 3, 4, 5], 'T': [1, 2, 3]}
+PKS = {'P': [1, 2, 3], 'K': [1, 2, 3, 4, 5], 'T': [1, 2, 3]}
 STRS = ['a', 'b', 'c', 'd']
 FLOATS = [0.5, 1.5, 2.25, 3.0]
 
@@ -92,11 +92,11 @@ def reset_data(world, data):
     mon.execute('DELETE FROM "P"')
     for i, pk in enumerate(PKS['P']):
         mon.execute('INSERT INTO "P"("id", "name", "n", "f", "v") VALUES (?, ?, ?, ?, ?)',
-                    [pk, STRS[_val(vals, i, 4)], _val(vals, 2 + i, 4), FLOATS[_val(vals, 4 + i, 4)], _val(vals, 6 + i, 4)])
+                    [pk, STRS[_val(vals, i % 2, 4)], _val(vals, 2 + i % 2, 4), FLOATS[_val(vals, 4 + i % 2, 4)], _val(vals, 6 + i % 2, 4)])
     for i, pk in enumerate(PKS['T']):
         mon.execute('INSERT INTO "T"("id", "name") VALUES (?, ?)', [pk, STRS[_val(vals, 8 + i, 4)]])
     for i, pk in enumerate(PKS['K'][:4]):
-        par = [1, 1, 2, None][(kids[i] if i < len(kids) else 0) % 4]
+        par = [1, 1, 2, None, 3, 3][(kids[i] if i < len(kids) else 0) % 6]
         mon.execute('INSERT INTO "K"("id", "p", "n", "s") VALUES (?, ?, ?, ?)',
                     [pk, par, _val(vals, 11 + i, 4), STRS[_val(vals, 15 + i, 4)]])
     for i, ppk in enumerate(PKS['P']):
@@ -251,16 +251,16 @@ def make_reader_exec(case):
                 ent = kind[-1]
                 res = select('x for x in %s if x.id > c' % ent, g, {'c': c})[:]
             elif kind == 'kids_of':
-                par = _get(st, 'P', PKS['P'][op[2] % 2])
+                par = _get(st, 'P', PKS['P'][op[2] % len(PKS['P'])])
                 res = select('x for x in K if x.p == par and x.id > c', g, {'c': c, 'par': par})[:]
             elif kind == 'coll_select':
-                par = _get(st, 'P', PKS['P'][op[2] % 2])
+                par = _get(st, 'P', PKS['P'][op[2] % len(PKS['P'])])
                 res = par.kids.select()[:]
             elif kind == 'kids_n':
-                par = _get(st, 'P', PKS['P'][op[2] % 2])
+                par = _get(st, 'P', PKS['P'][op[2] % len(PKS['P'])])
                 res = select('x for x in K if x.p == par and x.n > c', g, {'c': c, 'par': par})[:]
             elif kind == 'tags_of':
-                par = _get(st, 'P', PKS['P'][op[2] % 2])
+                par = _get(st, 'P', PKS['P'][op[2] % len(PKS['P'])])
                 res = select('t for t in T if par in t.ps and t.id > c', g, {'c': c, 'par': par})[:]
             elif kind == 'prefetch_kids':
                 res = select('x for x in P if x.id > c', g, {'c': c}).prefetch(P.kids)[:]
@@ -302,7 +302,7 @@ def make_writer_exec(case):
         rec = {'op': name, 'obs': []}
         a, b, c = (list(op[1:]) + [0, 0, 0])[:3]
         if name == 'setp':
-            o = P[PKS['P'][a % 2]]
+            o = P[PKS['P'][a % len(PKS['P'])]]
             attr = P_ATTRS[b % len(P_ATTRS)]
             val = {'name': STRS[c % 4], 'n': c % 7, 'f': FLOATS[c % 4], 'v': c % 7}[attr]
             setattr(o, attr, val)
@@ -316,19 +316,19 @@ def make_writer_exec(case):
             T[PKS['T'][a % 3]].name = STRS[c % 4]
         elif name == 'move':
             o = K[PKS['K'][a % 4]]
-            o.p = [P.get(id=1), P.get(id=2), None][b % 3]
+            o.p = [P.get(id=1), P.get(id=2), None, P.get(id=3)][b % 4]
         elif name == 'delk':
             K[PKS['K'][a % 4]].delete()
         elif name == 'delp':
-            P[PKS['P'][a % 2]].delete()
+            P[PKS['P'][a % len(PKS['P'])]].delete()
         elif name == 'delt':
             T[PKS['T'][a % 3]].delete()
         elif name == 'newk':
-            K(id=5, p=[P.get(id=1), P.get(id=2), None][b % 3], n=c % 7, s=STRS[c % 4])
+            K(id=5, p=[P.get(id=1), P.get(id=2), None, P.get(id=3)][b % 4], n=c % 7, s=STRS[c % 4])
         elif name == 'tag':
-            P[PKS['P'][a % 2]].tags.add(T[PKS['T'][b % 3]])
+            P[PKS['P'][a % len(PKS['P'])]].tags.add(T[PKS['T'][b % 3]])
         elif name == 'untag':
-            P[PKS['P'][a % 2]].tags.remove(T[PKS['T'][b % 3]])
+            P[PKS['P'][a % len(PKS['P'])]].tags.remove(T[PKS['T'][b % 3]])
         elif name == 'commit':
             commit()
         else:
@@ -474,7 +474,7 @@ def judge(case, events, states):
             elif st is not None:
                 # reads of an already completely loaded and observed collection
                 if kind == 'count' and val != st['size']:
-                    fail(ctag(rel, 'shrank' if val < st['size'] else 'grew', st),
+                    fail(ctag(rel, 'count-shrank' if val < st['size'] else 'count-grew'),
                          'the completely loaded %s collection %s[%d].%s had %d items in step #%d, count() returns %d in step #%d'
                          % (rel, ent, pk, cname, st['size'], st['step'], val, ev['step']))
                 elif kind in ('empty', 'bool') and (val if kind == 'empty' else not val) != (st['size'] == 0):
